@@ -584,7 +584,13 @@ pub fn finish(def: &PropertyDef, cfg: &Cfg, stats: &Stats, started: Instant) -> 
     coverage.insert("evaluations".into(), json!(stats.evaluations));
     coverage.insert("distinct_nontrivial".into(), json!(distinct));
     coverage.insert("rule".into(), json!(def.rule));
-    coverage.insert("samples".into(), json!(stats.samples));
+    let samples = if stats.samples.is_empty() {
+        // no case reached a sampling site (e.g. every shard died early): say so instead of leaving the list empty
+        vec![json!({"note": "no per-case sample was recorded in this run", "evaluations": stats.evaluations, "counters": stats.counters})]
+    } else {
+        stats.samples.clone()
+    };
+    coverage.insert("samples".into(), json!(samples));
     coverage.insert("counters".into(), json!(stats.counters));
     coverage.insert("coverage_sets".into(), json!(stats.sets));
     coverage.insert(
